@@ -49,6 +49,10 @@ def dim_spec(t, units, n):
 
 
 def run(ctx):
+    C.seam_check(ctx["report"], ctx["rundir"], "C03", wrappers=[],
+                 pairs=[("3 m^+2", "3 m^2"), ("1 s^+1 + 1 s", "2 s"), ("20000 m^+2 to ha", "2"), ("2 Hz to s^+1", "2 Hz to s"), ("1 s^+1 + 1 Hz", "1 s + 1 Hz"),
+                        ("5 m^2 | m", "5 m"), ("6 kg m^2 | m s^2", "6 kg m | s^2"), ("5 m^2 | metre", "5 m"), ("5 m^2 | m + 1", "5 m + 1"), ("5 rad to m^3 | m^2", "5 rad to m"),
+                        ("3 m^-2 * 1 m^+3", "3 m"), ("4 s^+2 | s", "4 s")])
     C.config_matrix(ctx["report"], ctx["rundir"], "C03", ["1 m + 2 cm", "1 m + 1 s", "(6 m) / (2 s)", "5 eur + 5 usd to eur", "5 eur + 5", "5 eur < 5 s", "(6 eur) / (2 eur)", "3 m^+2 + 1 m^2", "1 s^+1 + 1 s", "2 Hz to s^+1", "1 m | s + 1 m | s^2", "3 Hz == 3 s^-2", "5 m^2 | m + 1 m", "6 kg m^2 | m s^2 to kg m | s^2"])
     rep, tier = ctx["report"], ctx["tier"]
     trees, units, ndims, n_exh = Q.build_cases(ctx, 2000 if tier == "quick" else 30000, rational_only=False)
